@@ -1,7 +1,9 @@
 /-
 Line-protocol driver for the random model and the C18 monitor.
-  model   <ops>            : one observation line per op line
+  model   <ops>            : one observation line per op line (Spec.C18Mon.modelObs)
   monitor C18 <ops> <obs>  : evaluates Spec.C18 on the implementation's observation stream
+                             (every clause through Spec.C18Mon.stepFails / postOf, the functions
+                             Proofs/RandomMonitor.lean proves sound; this file only parses and prints)
   monitor C12 <ops> <obs>  : the random slice of C12 (export / reimport / zero-height clauses only)
   monitor C13 <ops> <obs>  : the random slice of C13 (begin-block totality, queue hygiene, exactly-once)
 
@@ -21,8 +23,7 @@ ops:
   random reimport_zero                                              (PrepForZeroHeightGenesis first; the new chain is at height 1)
   random prng hash=<hex|-> t=<int> init=<hex|-> oracle=<0|1> seed=<hex|->        (pure)
 -/
-import Irismod.Spec.C18
-import Irismod.Spec.C12_Random
+import Irismod.Spec.C18Mon
 
 namespace Driver.Random
 open Irismod Irismod.Random Irismod.Line
@@ -160,20 +161,13 @@ def parseGenesis (s : String) : Option RandomGenesis.Genesis :=
       some (hh, rs)
     | _ => none
 
-def resWord : Except Err State → String
-  | .ok _ => "ok"
-  | .error (.reject _) => "rej"
-  | .error (.panic _) => "panic"
-
-def prngLine (t : List String) : Option String := do
+def parsePrng (t : List String) : Option Spec.C18Mon.MonLine := do
   let hash ← hexArg t "hash"
   let tm ← intArg? t "t"
   let ini ← hexArg t "init"
   let o ← arg? t "oracle"
   let seed ← hexArg t "seed"
-  match prngValue hash tm ini (o == "1") seed with
-  | some v => some s!"ok value={v}"
-  | none => some "panic value=-"
+  some (.prng hash tm ini (o == "1") seed)
 
 def resetState (tbl : Table) (r : List String) : Option State := do
   let h ← intArg? r "h"
@@ -181,27 +175,13 @@ def resetState (tbl : Table) (r : List String) : Option State := do
   let hash ← hexArg r "hash"
   some { height := h, unix := tm, hash := hash, addrs := tbl.map fun (_, b, raw) => (b, raw) }
 
-/-- the service module's EndBlocker as seen by this module: for every dropped oracle request one
-    failing response callback (an expired batch reports an error; a paused context reports a state
-    change — both only erase the pending oracle request); contexts that ceased to exist leave
-    the environment mirror `ctxs` -/
-def applySvcEnd (s : State) (dropped gone : List String) : State :=
-  let s1 := dropped.foldl (fun st c => apply st (.cbResponse c .empty true)) s
-  { s1 with ctxs := s1.ctxs.filter fun c => !(gone.contains c) }
-
-inductive SvcLine where
-  | endBlock (dropped gone : List String)
-  | respond (ctx : String) (seed : ByteArray) (cb : String)
-  | breakCtx (ctx : String) (delete : Bool)
-  | genesisPending (due : Nat) (req : Request)
-
-def parseSvc (tbl : Table) (t : List String) : Option SvcLine :=
+def parseSvc (tbl : Table) (t : List String) : Option Spec.C18Mon.MonLine :=
   match t with
   | "random" :: "svc_break" :: r => do
     let c ← arg? r "ctx"
     let how ← arg? r "how"
     if how ≠ "delete" ∧ how ≠ "running" then none else
-    some (.breakCtx c (how == "delete"))
+    some (.svcBreak c (how == "delete"))
   | "random" :: "genesis_pending" :: r => do
     let (c, ok) ← consumerOf tbl (arg r "consumer")
     if !ok then none else
@@ -217,28 +197,34 @@ def parseSvc (tbl : Table) (t : List String) : Option SvcLine :=
   | "random" :: "svc_end_block" :: r => do
     let d ← arg? r "dropped"
     let g ← arg? r "gone"
-    some (.endBlock (listOf (undashS d)) (listOf (undashS g)))
+    some (.svcEnd (listOf (undashS d)) (listOf (undashS g)))
   | "random" :: "svc_respond" :: r => do
     let c ← arg? r "ctx"
     let sd ← (arg? r "seed").bind bytesOfHex
     let cb ← arg? r "cb"
     if sd.size ≠ 32 then none else
     if cb ≠ "1" ∧ cb ≠ "0" ∧ cb ≠ "rej" then none else
-    some (.respond c sd cb)
+    some (.svcRespond c sd cb)
   | _ => none
 
-def modelSvc (s : State) : SvcLine → State × String
-  | .endBlock dropped gone => (applySvcEnd s dropped gone, "ok")
-  | .respond c seed cb =>
-    if cb == "1" then
-      let r := step s (.cbResponse c (.valid seed) false)
-      ((match r with | .ok s' => s' | .error _ => s), resWord r)
-    else (s, if cb == "0" then "ok" else "rej")
-  -- the environment mirror: a deleted context no longer exists; a running one still does
-  | .breakCtx c delete => ((if delete then { s with ctxs := s.ctxs.filter (· != c) } else s), "ok")
-  -- `InitGenesis`: EnqueueRandomRequest(height, GenerateRequestID(request), request)
-  | .genesisPending due req =>
-    ({ s with queue := AMap.set s.queue (due, requestId req.height req.consumer) req }, "ok")
+/-- every line but `reset` as a `MonLine` (the line kinds of `Spec.C18Mon`) -/
+def parseLine (tbl : Table) (t : List String) : Option Spec.C18Mon.MonLine :=
+  match t with
+  | "random" :: "prng" :: r => parsePrng r
+  | ["random", "export"] => some .export
+  | ["random", "reimport"] => some .reimport
+  | ["random", "reimport_zero"] => some .reimportZero
+  | _ =>
+    match parseSvc tbl t with
+    | some sl => some sl
+    | none => (parseOp tbl t).map .op
+
+/-- the observation line the model prints (`Spec.C18Mon.modelObs`) -/
+def showObs (line : Spec.C18Mon.MonLine) (o : Spec.C18Mon.Obs) : String :=
+  match line with
+  | .prng _ _ _ _ _ => s!"{o.word} value={o.value}"
+  | .export => s!"{o.word} validate={o.validate} gen={showGenesis o.gen}"
+  | _ => o.word ++ " " ++ showState o.p
 
 def modelLine (tbl : Table) (s : State) (line : String) : Table × State × String :=
   let t := tokens line
@@ -250,29 +236,12 @@ def modelLine (tbl : Table) (s : State) (line : String) : Table × State × Stri
       | some s0 => (tb, s0, "ok " ++ showState s0)
       | none => (tbl, s, "bad-op")
     | none => (tbl, s, "bad-op")
-  | "random" :: "prng" :: r => (tbl, s, (prngLine r).getD "bad-op")
-  | ["random", "export"] =>
-    let g := RandomGenesis.exportGenesis s
-    let v := match RandomGenesis.validateGenesis g with | .ok _ => "ok" | .error _ => "err"
-    (tbl, s, s!"ok validate={v} gen={showGenesis g}")
-  | ["random", "reimport"] =>
-    let r := RandomGenesis.importGenesis s (RandomGenesis.exportGenesis s)
-    let s' := match r with | .ok s' => s' | .error _ => s
-    (tbl, s', resWord r ++ " " ++ showState s')
-  | ["random", "reimport_zero"] =>
-    let r := RandomGenesis.restartZeroHeight s
-    let s' := match r with | .ok s' => s' | .error _ => s
-    (tbl, s', resWord r ++ " " ++ showState s')
   | _ =>
-    match parseSvc tbl t with
-    | some sl => let (s', w) := modelSvc s sl; (tbl, s', w ++ " " ++ showState s')
-    | none =>
-    match parseOp tbl t with
+    match parseLine tbl t with
     | none => (tbl, s, "bad-op")
-    | some op =>
-      let r := step s op
-      let s' := match r with | .ok s' => s' | .error _ => s
-      (tbl, s', resWord r ++ " " ++ showState s')
+    | some ml =>
+      let o := Spec.C18Mon.modelObs s ml
+      (tbl, o.p, showObs ml o)
 
 def runModel (ops : Array String) : IO Unit := do
   let mut s : State := {}
@@ -283,6 +252,22 @@ def runModel (ops : Array String) : IO Unit := do
     s := s'
     tbl := tb
     out.putStrLn o
+
+/-- the parsed observation of a line (`none`: the observation line is malformed) -/
+def parseObs (prop : String) (line : Spec.C18Mon.MonLine) (o : List String) : Option Spec.C18Mon.Obs :=
+  let word := o.head?.getD ""
+  match line with
+  | .prng _ _ _ _ _ => some { word := word, value := arg o "value" }
+  | .export =>
+    -- the C13 monitor evaluates nothing on an export line and does not read the document
+    if prop == "C13" then some { word := word, validate := arg o "validate" }
+    else (parseGenesis (arg o "gen")).map fun g => { word := word, validate := arg o "validate", gen := g }
+  | _ => (parseState o).map fun p => { word := word, p := p }
+
+/-- lines counted as monitor steps even when their observation does not parse -/
+def countsUnparsed : Spec.C18Mon.MonLine → Bool
+  | .export => true
+  | _ => false
 
 def runMonitor (prop : String) (ops obs : Array String) : IO Unit := do
   let out ← IO.getStdout
@@ -301,132 +286,26 @@ def runMonitor (prop : String) (ops obs : Array String) : IO Unit := do
       match parseTable r with
       | some tb =>
         match resetState tb r, parseState o with
-        | some s0, some p => tbl := tb; pre := { p with unix := s0.unix, hash := s0.hash, addrs := s0.addrs }
+        | some s0, some p => tbl := tb; pre := Spec.C18Mon.resetPost s0 p
         | _, _ => out.putStrLn s!"mon {prop} FAIL clause=parse line={i+1}"; fails := fails + 1
       | none => out.putStrLn s!"mon {prop} FAIL clause=parse line={i+1}"; fails := fails + 1
-    | "random" :: "prng" :: r =>
-      -- the pure PRNG: the value printed by the implementation is in [0,1) with 20 fractional
-      -- digits (or the call panicked, which only the zero block time may cause)
-      steps := steps + 1
-      let word := o.head?.getD ""
-      if prop != "C18" then
-        pure ()
-      else if word == "ok" then
-        if !(Spec.C18.isDigits20 (arg o "value")) then
-          out.putStrLn s!"mon {prop} FAIL clause=value-range line={i+1}"; fails := fails + 1
-      else if word == "panic" then
-        if intArg? r "t" != some 0 then
-          out.putStrLn s!"mon {prop} FAIL clause=prng-panic line={i+1}"; fails := fails + 1
-      else
-        out.putStrLn s!"mon {prop} FAIL clause=parse line={i+1}"; fails := fails + 1
-    | "random" :: "svc_end_block" :: _ =>
-      match parseSvc tbl t, parseState o with
-      | some (.endBlock dropped gone), some p =>
-        steps := steps + 1
-        let word := o.head?.getD ""
-        let post : State := { p with unix := pre.unix, hash := pre.hash, addrs := pre.addrs,
-                                      ctxs := pre.ctxs.filter fun c => !(gone.contains c) }
-        -- the service end block never halts, and for this module it may only drop pending oracle requests
-        if word != "ok" then
-          out.putStrLn s!"mon {prop} FAIL clause=service-end-block-panic line={i+1}"; fails := fails + 1
-        else if !(Spec.C18.sameMap pre.queue post.queue (fun _ => false) && Spec.C18.sameMap pre.randoms post.randoms (fun _ => false) &&
-                  pre.height == post.height && Spec.C18.sameMap pre.oracleReqs post.oracleReqs (fun c => dropped.contains c) &&
-                  dropped.all (fun c => (AMap.get? post.oracleReqs c).isNone)) then
-          out.putStrLn s!"mon {prop} FAIL clause=service-end-block-frame line={i+1}"; fails := fails + 1
-        pre := post
-      | _, _ => out.putStrLn s!"mon {prop} FAIL clause=parse line={i+1}"; fails := fails + 1
-    | ["random", "export"] =>
-      steps := steps + 1
-      if prop != "C13" then
-        match parseGenesis (arg o "gen") with
-        | none => out.putStrLn s!"mon {prop} FAIL clause=parse line={i+1}"; fails := fails + 1
-        | some g =>
-          if arg o "validate" != "ok" then
-            out.putStrLn s!"mon {prop} FAIL clause=export-does-not-validate line={i+1}"; fails := fails + 1
-          if !(Spec.C12Random.exportOk pre g) then
-            out.putStrLn s!"mon {prop} FAIL clause=export-lost-or-altered-request line={i+1}"; fails := fails + 1
-    | ["random", "reimport"] =>
-      match parseState o with
-      | some p =>
-        steps := steps + 1
-        let post : State := { p with unix := pre.unix, hash := pre.hash, addrs := pre.addrs, ctxs := pre.ctxs }
-        if prop != "C13" then
-          if o.head? != some "ok" then
-            out.putStrLn s!"mon {prop} FAIL clause=reimport-failed line={i+1}"; fails := fails + 1
-          else if !(Spec.C12Random.queueSame pre.queue post.queue && pre.height == post.height) then
-            out.putStrLn s!"mon {prop} FAIL clause=reimport-changed-queue line={i+1}"; fails := fails + 1
-        pre := post
+    | _ =>
+      match parseLine tbl t with
       | none => out.putStrLn s!"mon {prop} FAIL clause=parse line={i+1}"; fails := fails + 1
-    | ["random", "reimport_zero"] =>
-      match parseState o with
-      | some p =>
-        steps := steps + 1
-        let post : State := { p with unix := pre.unix, hash := pre.hash, addrs := pre.addrs, ctxs := pre.ctxs }
-        if prop != "C13" then
-          if o.head? != some "ok" then
-            out.putStrLn s!"mon {prop} FAIL clause=reimport-failed line={i+1}"; fails := fails + 1
-          else if !(Spec.C12Random.queueSame (Spec.C12Random.rebased pre) post.queue && post.height == 1) then
-            out.putStrLn s!"mon {prop} FAIL clause=zero-height-rebase line={i+1}"; fails := fails + 1
-        pre := post
-      | none => out.putStrLn s!"mon {prop} FAIL clause=parse line={i+1}"; fails := fails + 1
-    | "random" :: "svc_break" :: _ =>
-      match parseSvc tbl t, parseState o with
-      | some (.breakCtx c delete), some p =>
-        steps := steps + 1
-        let post : State := { p with unix := pre.unix, hash := pre.hash, addrs := pre.addrs,
-                                      ctxs := if delete then pre.ctxs.filter (· != c) else pre.ctxs }
-        if o.head? != some "ok" || !(Spec.C18.sameObs pre post) then
-          out.putStrLn s!"mon {prop} FAIL clause=environment-op-changed-state line={i+1}"; fails := fails + 1
-        pre := post
-      | _, _ => out.putStrLn s!"mon {prop} FAIL clause=parse line={i+1}"; fails := fails + 1
-    | "random" :: "genesis_pending" :: _ =>
-      match parseSvc tbl t, parseState o with
-      | some (.genesisPending due req), some p =>
-        steps := steps + 1
-        let post : State := { p with unix := pre.unix, hash := pre.hash, addrs := pre.addrs, ctxs := pre.ctxs }
-        let key := (due, requestId req.height req.consumer)
-        -- genesis import enqueues exactly the given request under (height, id of the request)
-        if o.head? != some "ok" || !(AMap.get? post.queue key == some req) ||
-           !(Spec.C18.sameMap pre.queue post.queue (· == key) && Spec.C18.sameMap pre.randoms post.randoms (fun _ => false) &&
-             Spec.C18.sameMap pre.oracleReqs post.oracleReqs (fun _ => false) && pre.height == post.height) then
-          out.putStrLn s!"mon {prop} FAIL clause=genesis-pending-import line={i+1}"; fails := fails + 1
-        pre := post
-      | _, _ => out.putStrLn s!"mon {prop} FAIL clause=parse line={i+1}"; fails := fails + 1
-    | "random" :: "svc_respond" :: _ =>
-      match parseSvc tbl t, parseState o with
-      | some (.respond c seed cb), some p =>
-        steps := steps + 1
-        let word := o.head?.getD ""
-        let post : State := { p with unix := pre.unix, hash := pre.hash, addrs := pre.addrs, ctxs := pre.ctxs }
-        if prop == "C18" then
-          let fs := if cb == "1" then Spec.C18.check pre (.cbResponse c (.valid seed) false) word post
-                    else Spec.C18.failIf (!(Spec.C18.sameObs pre post)) "response-without-callback-changed-state"
-          for f in fs do
+      | some ml =>
+        match parseObs prop ml o with
+        | none =>
+          if countsUnparsed ml then steps := steps + 1
+          out.putStrLn s!"mon {prop} FAIL clause=parse line={i+1}"; fails := fails + 1
+        | some ob =>
+          steps := steps + 1
+          -- every clause is evaluated by the Spec-level function the soundness theorem is about
+          -- (Proofs/RandomMonitor.lean: monitor_sound, line_inv)
+          for f in Spec.C18Mon.stepFails prop pre ml ob do
             let cls := match f.cls with | some c => s!" class={c}" | none => ""
             out.putStrLn s!"mon {prop} FAIL clause={f.clause} line={i+1}{cls}"
             fails := fails + 1
-        pre := post
-      | _, _ => out.putStrLn s!"mon {prop} FAIL clause=parse line={i+1}"; fails := fails + 1
-    | _ =>
-      match parseOp tbl t, parseState o with
-      | some op, some p =>
-        steps := steps + 1
-        let word := o.head?.getD ""
-        -- header fields and the set of service contexts are not part of the observation
-        let (ux, hs) := match op, word with
-          | .beginBlock _ tm hash _, "ok" => (tm, hash)
-          | _, _ => (pre.unix, pre.hash)
-        let ctxs := match op, word with
-          | .requestOracle _ _ _ _ _ _ (.ok c), "ok" => c :: pre.ctxs
-          | _, _ => pre.ctxs
-        let post : State := { p with unix := ux, hash := hs, addrs := pre.addrs, ctxs := ctxs }
-        for f in (if prop == "C13" then Spec.C18.checkC13 pre op word post
-                  else if prop == "C12" then [] else Spec.C18.check pre op word post) do
-          let cls := match f.cls with | some c => s!" class={c}" | none => ""
-          out.putStrLn s!"mon {prop} FAIL clause={f.clause} line={i+1}{cls}"
-          fails := fails + 1
-        pre := post
-      | _, _ => out.putStrLn s!"mon {prop} FAIL clause=parse line={i+1}"; fails := fails + 1
+          pre := Spec.C18Mon.postOf pre ml ob.word ob.p
   out.putStrLn s!"mon {prop} done steps={steps} fails={fails}"
 
 def readLines (p : String) : IO (Array String) := do
